@@ -217,7 +217,7 @@ KANI = dict(module='vx.kanieng', tier='thorough')
 PROPS['C03']['engines'] = [KANI, dict(module='vx.boundeng'), dict(module='gvc.engine', args=dict(analyses=('faithful',)))]
 PROPS['C18']['engines'] = [dict(module='gvc.engine', args=dict(analyses=('pptotal', 'assumed', 'faithful'))), REPLAY]
 PROPS['C05']['engines'] = [dict(module='vx.boundeng'), dict(module='gvc.engine', args=dict(analyses=('shadow', 'kwsites', 'assumed', 'faithful')))]
-PROPS['C11']['engines'] = [dict(module='gvc.engine', args=dict(analyses=('shadow', 'kwsites', 'assumed', 'faithful')))]
+PROPS['C11']['engines'] = [dict(module='gvc.engine', args=dict(analyses=('shadow', 'kwsites', 'assumed', 'faithful', 'pptotal')))]
 PROPS['C10']['engines'] = [dict(module='gvc.engine', args=dict(analyses=('assumed', 'faithful', 'errors')))]
 PROPS['C09']['engines'] = [dict(module='gvc.engine', args=dict(analyses=('assumed', 'errors')))]
 PROPS['C04']['engines'] = [dict(module='gvc.engine', args=dict(analyses=('frame', 'assumed', 'kwsites', 'pptotal', 'faithful'))), REPLAY]
